@@ -32,7 +32,7 @@ import (
 var c17File = []byte{10, 11, 12, 13, 14}
 
 type c17Op struct {
-	Kind  string `json:"kind"` // get | set | setbad | delall | delnone | failnext | failnext-eof | failnext-eof-partial
+	Kind  string `json:"kind"` // get | set | setbad | delall | delnone | failnext | failnext-eof | failnext-eof-partial | close
 	Start int64  `json:"start,omitempty"`
 	Len   int64  `json:"len,omitempty"`
 }
@@ -51,6 +51,7 @@ type c17Env struct {
 	calls      int
 	failedCall bool
 	failCount  int
+	closed     bool
 	held       []c17Held // slices returned by earlier reads that the caller still holds
 }
 
@@ -119,6 +120,11 @@ func c17New() *c17Env {
 
 // apply performs one operation and returns a violation class ("" = fine) and detail.
 func (e *c17Env) apply(o c17Op) (class, detail string) {
+	defer func() {
+		if r := recover(); r != nil {
+			class, detail = "panic", fmt.Sprintf("%s panicked: %v (cache closed: %v)", o, r, e.closed)
+		}
+	}()
 	ctx := context.Background()
 	size := int64(len(c17File))
 	switch o.Kind {
@@ -139,6 +145,9 @@ func (e *c17Env) apply(o c17Op) (class, detail string) {
 			if o.Len == 0 {
 				return "", "" // an empty read may be refused
 			}
+			if e.closed {
+				return "", "" // a closed cache may refuse to read
+			}
 			return "spurious-error", fmt.Sprintf("%s failed although the remote was healthy: %v", o, err)
 		}
 		want := c17File[o.Start : o.Start+o.Len]
@@ -154,6 +163,9 @@ func (e *c17Env) apply(o c17Op) (class, detail string) {
 	case "set":
 		v := append([]byte{}, c17File[o.Start:o.Start+o.Len]...)
 		if err := e.rc.SetRange(ctx, o.Start, o.Len, v); err != nil {
+			if e.closed {
+				return "", ""
+			}
 			return "set-rejected", fmt.Sprintf("%s with correct bytes rejected: %v", o, err)
 		}
 	case "setbad":
@@ -166,6 +178,10 @@ func (e *c17Env) apply(o c17Op) (class, detail string) {
 		e.rc.DeleteOldEntries(ctx, -time.Hour)
 	case "delnone":
 		e.rc.DeleteOldEntries(ctx, 1000*time.Hour)
+	case "close":
+		// the owner closes the cache (an epoch being removed or replaced) while readers may still use it
+		e.rc.Close()
+		e.closed = true
 	case "failnext":
 		e.failNext = 1
 	case "failnext-eof":
@@ -182,7 +198,7 @@ func (e *c17Env) key() string {
 		parts = append(parts, fmt.Sprintf("[%d,%d)=%v", r[0], r[1], v.Value))
 	}
 	sort.Strings(parts)
-	return strings.Join(parts, " ") + fmt.Sprintf(" fail=%v", e.failNext)
+	return strings.Join(parts, " ") + fmt.Sprintf(" fail=%v closed=%v", e.failNext, e.closed)
 }
 
 func c17Alphabet() []c17Op {
@@ -198,7 +214,7 @@ func c17Alphabet() []c17Op {
 		ops = append(ops, c17Op{"set", r[0], r[1]})
 	}
 	ops = append(ops, c17Op{"setbad", 1, 2}, c17Op{"setbad", 4, 2})
-	ops = append(ops, c17Op{Kind: "delall"}, c17Op{Kind: "delnone"}, c17Op{Kind: "failnext"}, c17Op{Kind: "failnext-eof"}, c17Op{Kind: "failnext-eof-partial"})
+	ops = append(ops, c17Op{Kind: "delall"}, c17Op{Kind: "delnone"}, c17Op{Kind: "failnext"}, c17Op{Kind: "failnext-eof"}, c17Op{Kind: "failnext-eof-partial"}, c17Op{Kind: "close"})
 	return ops
 }
 
@@ -441,6 +457,8 @@ func c17Scenarios() []c17Scenario {
 		{Name: "failure + reader + expiry", Preset: []c17Op{{"set", 3, 2}, fail}, Threads: []c17Thread{{[]c17Op{g(0, 5), g(0, 5)}}, {[]c17Op{g(3, 2)}}, {[]c17Op{del}}}},
 		{Name: "EOF failure + two readers", Preset: []c17Op{{Kind: "failnext-eof"}}, Threads: []c17Thread{{[]c17Op{g(0, 3)}}, {[]c17Op{g(1, 2), g(0, 3)}}}},
 		{Name: "short-body failure + two readers", Preset: []c17Op{{Kind: "failnext-eof-partial"}}, Threads: []c17Thread{{[]c17Op{g(0, 4)}}, {[]c17Op{g(1, 2), g(0, 4)}}}},
+		{Name: "close + two readers", Threads: []c17Thread{{[]c17Op{g(0, 3), g(1, 3)}}, {[]c17Op{g(2, 3)}}, {[]c17Op{{Kind: "close"}}}}},
+		{Name: "preset entry, close + reader", Preset: []c17Op{{"set", 0, 5}}, Threads: []c17Thread{{[]c17Op{g(1, 2), g(0, 5)}}, {[]c17Op{{Kind: "close"}}}}},
 		{Name: "three readers", Threads: []c17Thread{{[]c17Op{g(0, 4)}}, {[]c17Op{g(1, 4)}}, {[]c17Op{g(2, 2), g(0, 5)}}}},
 		{Name: "reader + concurrent SetRange", Threads: []c17Thread{{[]c17Op{g(0, 4), g(1, 2)}}, {[]c17Op{{"set", 1, 3}, {"set", 0, 5}}}}},
 	}
